@@ -836,11 +836,54 @@ func fxLineBreakOrigin(c *Ctx, v ssa.Value) (leaves []fxLbLeaf, isLB bool) {
 				}
 			}
 			leaves = append(leaves, fxLbLeaf{kind: fxLbOther, what: valueLabel(v)})
+		case *ssa.Extract:
+			if x.Index == 0 {
+				walk(x.Tuple)
+				return
+			}
+			leaves = append(leaves, fxLbLeaf{kind: fxLbOther, what: valueLabel(v)})
 		case *ssa.Call:
 			if f := core.StaticCallee(x); f != nil && f.Name() == "Value" && f.Signature.Recv() != nil && strings.HasSuffix(core.NamedOf(f.Signature.Recv().Type()), "go-text.LineBreak") {
 				isLB = true
 				lbOf(x.Common().Args[0])
 				return
+			}
+			// the character-set encoder of go-text is transparent for the origin of the bytes
+			if f := core.StaticCallee(x); f != nil && f.Name() == "Encode" && f.Pkg != nil && strings.HasSuffix(f.Pkg.Pkg.Path(), "mithrandie/go-text") && len(x.Call.Args) > 0 {
+				walk(x.Call.Args[0])
+				return
+			}
+			// a lib/query helper that makes the bytes from a line break it is handed: its returned
+			// bytes are followed inside the helper, parameters are mapped back to the arguments
+			if f := core.StaticCallee(x); f != nil && f.Blocks != nil && (c.P.InPkg(f, "lib/query") || c.P.IsControl(f)) && !seen[ssa.Value(f)] {
+				seen[ssa.Value(f)] = true
+				any := false
+				for _, rv := range core.ReturnedValues(f, 0) {
+					if core.IsNilConst(rv) {
+						continue
+					}
+					sub, sawLB := fxLineBreakOrigin(c, rv)
+					if sawLB {
+						isLB = true
+					}
+					for _, sl := range sub {
+						any = true
+						if sl.kind == fxLbParam && sl.idx < len(x.Call.Args) {
+							a := x.Call.Args[sl.idx]
+							if strings.HasSuffix(core.NamedOf(a.Type()), "go-text.LineBreak") {
+								isLB = true
+								lbOf(a)
+							} else {
+								walk(a)
+							}
+							continue
+						}
+						leaves = append(leaves, sl)
+					}
+				}
+				if any {
+					return
+				}
 			}
 			leaves = append(leaves, fxLbLeaf{kind: fxLbOther, what: valueLabel(v)})
 		default:
@@ -873,6 +916,20 @@ func ruleFmt4(c *Ctx) {
 	if root == nil {
 		return
 	}
+	start4 := len(c.Obs)
+	defer func() {
+		// not vacuous: the two closing line breaks of Commit must have been recognised (when the bytes
+		// started to come from a helper, the walk lost them and the clause passed silently)
+		n := 0
+		for _, o := range c.Obs[start4:] {
+			if !o.Control && strings.Contains(o.Key, "trailing line break write") {
+				n++
+			}
+		}
+		if n < 2 {
+			c.Unknown("anchor:trailing line break writes of the commit path", "-", fmt.Sprintf("cannot-analyse: expected the closing line break of the created and of the updated files (2 writes), recognised %d", n))
+		}
+	}()
 	// Commit plus the lib/query helpers it calls directly or through helpers that
 	// receive the transaction or a file (helper extraction must not hide a read);
 	// EncodeView and ExportOptions are the sanctioned consumers of the options.
